@@ -33,8 +33,10 @@ def run_item(kind, item):
         shutil.copy(os.path.join(ROOT, "known_findings.json"), vf)
         for i in range(1, 21):
             cid = "C%02d" % i
-            out = sh(f"{ROOT}/bin/gengolint -verif {vf} -repo {wt} -prop {cid} -tier quick").stdout
-            assert ("quick:" in out or "VIOLATION" in out), "check did not run: " + out[:300]
+            pr = sh(f"{ROOT}/bin/gengolint -verif {vf} -repo {wt} -prop {cid} -tier quick")
+            out = pr.stdout
+            if not ("quick:" in out or "VIOLATION" in out):
+                res["status"] = f"CHECKER CRASH in {cid}: " + (pr.stderr or out)[-600:]; return res
             if "VIOLATION property=" in out:
                 res["reported"][cid] = {"rules": sorted(set(re.findall(r"\[(C\d\d\.[A-Za-z0-9]+)\]", out))),
                                         "lines": [l[:300] for l in out.splitlines() if re.search(r"\[C\d\d\.", l) and not l.startswith("KNOWN")][:6]}
